@@ -41,7 +41,7 @@ for P in $PROP "$@"; do
   RP=$(grep -m1 "^VIOLATION" $DEST/check_$P.log | sed 's/.*replay=\([^ ]*\).*/\1/')
   [ -n "$RP" ] && [ -f "$RP" ] && head -c 20000 "$RP" > $DEST/replay_$P.txt
 done
-git -C /repo checkout -- . 
+git -C /repo checkout -- . && git -C /repo clean -fdq rust 
 (cd /verif/harness && cargo build > /dev/null 2>&1)
 python3 - "$ID" "$PROP" "$R_DEMO_BEFORE" "$R_DEMO_AFTER" "$PASSED" "$FAILED" "$RES" <<'PY'
 import json, sys, os
